@@ -21,7 +21,7 @@ CHECKS = {
     "C17": (
         "exploration",
         "deterministic simulation: seeded operation histories against a textbook-LRU reference model, real checkpoint files, clean restarts",
-        "Seeded search over operation histories (touch/remove/evict/checkpoint/reload/restart) on the real LruManager with real files in a per-run sandbox; after every operation length, membership and full recency order are compared with a textbook LRU, and at the end the tracker must still hold its full capacity. Sampling, not proof; short histories over capacity<=3 are hit many times each. The first run indices of every batch enumerate ALL histories up to length 3 (quick) / 5 (thorough) over a 17-symbol alphabet for capacities 1-3 and 4 keys, independent of the seed. run_cycle limits reach from one entry to 2^32 average-sized entries and just above, powers of two and u64::MAX. One seeded run in 400 has a table of 1000 - 1 000 000 slots; one run in five fills the table with active entries mid-history; cold restarts.",
+        "Seeded search over operation histories (touch/remove/evict/checkpoint/reload/restart) on the real LruManager with real files in a per-run sandbox; after every operation length, membership and full recency order are compared with a textbook LRU, and at the end the tracker must still hold its full capacity. Sampling, not proof; short histories over capacity<=3 are hit many times each. The first run indices of every batch enumerate ALL histories up to length 3 (quick) / 5 (thorough) over a 17-symbol alphabet for capacities 1-3 and 4 keys, independent of the seed. run_cycle limits reach from one entry to 2^32 average-sized entries and just above, powers of two and u64::MAX. One seeded run in 400 has a table of 1000 - 1 000 000 slots; one run in five fills the table with active entries mid-history; cold restarts. One run in eight is generation-heavy (>= 9 ops, three quarters bump / checkpoint / load) so that several checkpoint files exist side by side; loads select the latest, current, previous, OLDEST or a missing checkpoint; which older file a checkpoint may delete is carried by the model across loads (bumps and restarts decide it).",
         "Trusted: the reference LRU (40 lines), tmpfs semantics for whole-file write/read, the libc interposition layer (clock/entropy). Crash during checkpoint is C06, not here.",
         "3/C17",
     ),
@@ -101,7 +101,7 @@ CHECKS["C13"] = (
 CHECKS["C15"] = (
     "exploration",
     "deterministic simulation of the real Ribbit server and the real clients on one simulated network: generated build databases, concurrent well-formed (TCP v1 MIME+checksum, TCP v2, HTTP via the real axum Router) and malformed/slow/never-terminated clients at seeded virtual times, seeded segmentation and latency, bounded-liveness probe",
-    "Seeded search over databases the server accepts x concurrent client mixes x segmentations: every row the project's own client parses must equal, field by typed field, the record with the chronologically newest build_time of the product; malformed requests must end in an error reply or a closed connection within 10 s + 1 s of virtual time; no task may panic; a fresh well-formed request sent after the last malformed client started must be answered correctly within 1 virtual second. Database strings include look-alikes of the wire framing and of the client's format sniffing; product names include spaces, non-ASCII, URL-special characters, dot segments and route words; 18 kinds of malformed request. One database in twenty has a long product name (200-4000 bytes; request line just below / at / above 1 KiB). Database shapes: dates across years, build numbers at 32-bit edges, twin product names, hundreds of builds or products, repeated record ids, shared timestamps, sparse JSON, several server CDN configurations.",
+    "Seeded search over databases the server accepts x concurrent client mixes x segmentations: every row the project's own client parses must equal, field by typed field, the record with the chronologically newest build_time of the product; malformed requests must end in an error reply or a closed connection within 10 s + 1 s of virtual time; no task may panic; a fresh well-formed request sent after the last malformed client started must be answered correctly within 1 virtual second. Database strings include look-alikes of the wire framing and of the client's format sniffing; product names include spaces, non-ASCII, URL-special characters, dot segments and route words; 18 kinds of malformed request. One database in twenty has a long product name (200-4000 bytes; request line just below / at / above 1 KiB). Database shapes: one time-of-day (first 19 bytes of build_time) for all records with differing fractions of a second / offsets behind it (one database in eight), dates across years, build numbers at 32-bit edges, twin product names, hundreds of builds or products, repeated record ids, shared timestamps, sparse JSON, several server CDN configurations.",
     "Trusted: the independent expectation model (response layout per region, RFC 3339 ordering), the stubbed transport boundary (no kernel TCP / hyper framing), product names restricted to request-safe characters.",
     "3/C15",
 )
